@@ -539,13 +539,13 @@ class GibbsSampling(MarkovChain):
         2  1  1  0
         3  1  1  1
         """
+        if seed is not None:
+            np.random.seed(seed)
+
         if start_state is None and self.state is None:
             self.state = self.random_state()
         elif start_state is not None:
             self.set_start_state(start_state)
-
-        if seed is not None:
-            np.random.seed(seed)
 
         types = [(str(var_name), "int") for var_name in self.variables]
         sampled = np.zeros(size, dtype=types).view(np.recarray)
